@@ -10,8 +10,12 @@ if os.path.exists(hp):
     hooks_commits = [l.split()[0] for l in open(hp) if l.strip() and not l.startswith("#")]
 baseline = json.load(open("/root/.vp/BASELINE.json"))["cmd"] if os.path.exists("/root/.vp/BASELINE.json") else ""
 checks, na = [], []
+claimed = set(open(os.path.join(V, "claimed.txt")).read().split())
 for p in props:
     pid = p["id"]
+    if pid not in claimed:
+        na.append({"property_id": pid, "reason": "check not finished in this round (see DESIGN.md section 6 for the plan); not claimed"})
+        continue
     modp = os.path.join(V, "tools", "props", pid.lower() + ".py")
     if not (os.path.exists(modp) and os.path.exists(os.path.join(V, "coq", "theories", "Props", pid + ".v"))):
         na.append({"property_id": pid, "reason": "check not built yet in this round (see DESIGN.md section 6 for the plan); not claimed"})
